@@ -571,6 +571,17 @@ def run_property(pid, tier='quick', seed=0, extra_checks=None, modules=None, job
         vv = _vf.Verifier(reg, pid=pid)
         for u, d in results.items():
             if u[0] == 'function' and not d.get('engine_error'):
+                ok = {q.split()[1] for q in d.get('used', []) if q.startswith('<call-ok> ')}
+                fal = sorted((q for q in d.get('used', [])
+                              if q.startswith('<call-begin> ') and q.split()[1] not in ok),
+                             key=lambda q: q.split(' ', 2)[2])
+                d['used'] = [q for q in d.get('used', []) if not q.startswith('<call-')]
+                if fal:
+                    d['engine_error'] = ('vacuity: no path through a call by contract has a '
+                                         'satisfiable continuation (the callee\'s postconditions '
+                                         'contradict the state at the call site, so what follows '
+                                         'the call is never examined): ' + fal[0].split(' ', 2)[2])
+                    continue
                 for suffix, c2 in vv.variant_contracts(reg.fns[u[1]]):
                     err = _vf.function_guards(c2, suffix, d.get('exits', {}), d['obls'])
                     if err:
@@ -809,7 +820,7 @@ def reg_assumptions(reg, results):
         if c.note:
             out.append([f'{d["name"]}: {c.note}'])
         for q in d.get('used', []):
-            if q.startswith('<skipped-at-call>'):
+            if q.startswith('<skipped-at-call>') or q.startswith('<call-'):
                 continue
             if q.startswith('<ext> '):
                 from .ext import EXT_ASSUMPTIONS
